@@ -1879,7 +1879,16 @@ impl<'de, 'e> de::Deserializer<'de> for YamlDeserializer<'de, 'e> {
                         seed.deserialize(deser).map(Some)
                     }
                 }
-                return visitor.visit_seq(ByteSeq { data, idx: 0 });
+                let mut bytes = ByteSeq { data, idx: 0 };
+                let value = visitor.visit_seq(&mut bytes)?;
+                // As for a written-out sequence: a fixed-length target must take every byte.
+                if bytes.idx < bytes.data.len() {
+                    return Err(Error::unexpected(
+                        "end of the binary value (more bytes than the target takes)",
+                    )
+                    .with_location(data_location));
+                }
+                return Ok(value);
             }
         }
         self.expect_seq_start()?;
